@@ -168,6 +168,27 @@ class ExcVal:
         return ('exc', self.cls) + tuple(vkey(a) for a in self.args)
 
 
+@dataclass(eq=False)
+class NTClass:
+    name: str
+    fields: Tuple[str, ...]
+
+    def key(self):
+        return ('ntclass', self.name, self.fields)
+
+
+class NTVal(tuple):
+    """namedtuple instance: a real tuple (iteration, unpacking, indexing) with named fields."""
+
+    def __new__(cls, ntc, vals):
+        o = super().__new__(cls, vals)
+        o.ntc = ntc
+        return o
+
+    def key(self):
+        return ('nt', self.ntc.name) + tuple(vkey(v) for v in self)
+
+
 class LazyGen:
     """A generator expression evaluated on demand."""
 
@@ -1147,6 +1168,10 @@ class Interp:
             if obj.name in self.repo.modules:
                 return self.global_name(name, self.repo.modules[obj.name], node)
             return ModRef(q)
+        if isinstance(obj, NTVal):
+            if name in obj.ntc.fields:
+                return obj[obj.ntc.fields.index(name)]
+            raise Raised(ExcVal('AttributeError', (name,)))
         if isinstance(obj, ExcVal):
             if name == 'args':
                 return obj.args
@@ -1340,11 +1365,24 @@ class Interp:
         if isinstance(callee, ModRef):
             if callee.name == 'typing.cast' and len(args) == 2:
                 return args[1]
+            if callee.name == 'collections.namedtuple' and len(args) == 2 and isinstance(args[0], str) and is_concrete(args[1]):
+                fields = args[1].replace(',', ' ').split() if isinstance(args[1], str) else list(args[1])
+                return NTClass(args[0], tuple(fields))
+            if callee.name in PURE_STDLIB and all(is_concrete(a) for a in args) and not kwargs:
+                try:
+                    return PURE_STDLIB[callee.name](*args)
+                except Exception as ex:
+                    raise Raised(ExcVal(type(ex).__name__, (str(ex),)))
             return App('call:' + callee.name, *args, *[App('kw', k, v) for k, v in kwargs.items()])
         if isinstance(callee, App) and callee.op == 'attr':
             return App('mcall:' + callee.args[1], callee.args[0], *args, *[App('kw', k, v) for k, v in kwargs.items()])
         if isinstance(callee, (Sym, App)):
             return App('apply', callee, *args, *[App('kw', k, v) for k, v in kwargs.items()])
+        if isinstance(callee, NTClass):
+            vals = list(args) + [kwargs[f] for f in callee.fields[len(args):]]
+            if len(vals) != len(callee.fields):
+                raise Raised(ExcVal('TypeError', ('namedtuple arity',)))
+            return NTVal(callee, tuple(vals))
         if isinstance(callee, Obj):
             m = self.repo.find_method(callee.cls, '__call__')
             if m is not None:
@@ -1510,6 +1548,14 @@ class Interp:
         r = self.hooks.isinstance(self, obj, classes)
         if r is not NotImplemented:
             return r
+        if any(isinstance(c, NTClass) for c in classes):
+            if isinstance(obj, NTVal) and any(isinstance(c, NTClass) and c.name == obj.ntc.name for c in classes):
+                return True
+            classes = [c for c in classes if not isinstance(c, NTClass)]
+            if not classes:
+                return False
+        if isinstance(obj, NTVal):
+            return any(isinstance(c, Builtin) and c.name == 'tuple' for c in classes)
         if isinstance(obj, Obj):
             for c in classes:
                 if isinstance(c, ClassRef) and self.repo.is_subclass(obj.cls, c.qual):
@@ -1684,6 +1730,8 @@ class Interp:
         return App('str', *args)
 
     def b_repr(self, args, kwargs, node):
+        if len(args) == 1 and is_prim(args[0]):
+            return repr(args[0])
         return App('repr', *args)
 
     def b_int(self, args, kwargs, node):
@@ -1842,6 +1890,10 @@ class Interp:
             return getattr(recv, name)(*args)
         raise Unsupported(f'method {name} on {vrepr(recv)}')
 
+
+import json as _json
+
+PURE_STDLIB = {'json.dumps': _json.dumps, 'json.loads': _json.loads}
 
 SAFE_BUILTINS = {'abs', 'bool', 'bytes', 'chr', 'divmod', 'float', 'hex', 'int', 'len', 'max', 'min', 'oct', 'ord', 'pow',
                  'round', 'str', 'sum', 'bin', 'bytearray'}
